@@ -23,6 +23,7 @@ CLAIMED = {
  "C12": "MC_Lex: every line of <=3 (quick) / <=4 (thorough) lexemes over a 29-lexeme alphabet; TLC checks on the Lexer model that every blank/tab insertion, blank deletion and case flip outside string literals, REM text and DATA items leaves the tokens unchanged; every row and every allowed perturbation replayed through the real tokenizer; random longer lines recorded from the real tokenizer judged by TLC.",
  "C13": "Same enumeration: the model's tokens, byte ranges and error positions compared with the real tokenizer's on every row; TLC checks ranges in-line, on character boundaries, ordered, disjoint, non-blank at both ends, re-tokenizing to the one token, and that the prefix before an error tokenizes to the tokens already produced.",
  "C14": "Same enumeration: TLC checks that the LIST line of every stored line re-tokenizes to the same tokens and lists identically; the real interpreter stores each line, LISTs it, reloads the listing into a fresh interpreter and must show identical tokens and listing, equal to the model's.",
+ "C15": "Cli.tla models StdioInterpreter under pipes (options, file mode vs interactive mode, the line-buffering printer's stdout/stderr interleaving, exit codes) and the loader equivalence; MC_Cli checks both halves of C15 on 21 programs x 8 option sets x 3 reply scripts; the real `abasic` binary is run both ways and compared with itself and with the predicted streams; the real analyzer loader is compared with line-by-line entry (LIST, tokens, RUN); generated programs through the real binary are judged by TLC.",
  "C16": "Invariant Caps (<=32 frames, <=32 loops with distinct variables, cell count = product <= 10000, name-suffix typing of variables, cells and parameters) checked by TLC on MC_C01 and on cap-driving kernels (GOSUB and function recursion to 33, 34 FOR variables, FOR re-entered by GOTO 40 times, DIM at 10000/10001 cells, implicit arrays of 1-5 dimensions, every write path with the wrong kind); the same invariants are monitors on every snapshot of every recorded trace.",
  "C17": "One-step lemma FlagsDoNotInterfere checked by TLC at every reachable state of the kernel schedules with both flags on; trace and warning records (kind, line) predicted by the model and compared on replay; differential driver: each generated program under the four flag configurations, outputs minus trace/warning records and final state compared.",
  "C18": "Rng.tla on limb naturals; MC_Rng explores all argument-sign sequences from 17 boundary seeds with invariants InRange and Pure (against an independently coded LCG); Apalache proves the range invariant inductive over unbounded integers; every transition replayed through the hook, PRINT RND on the core and on the Web adapter; RND calls from boundary and random 64-bit seeds judged by TLC.",
@@ -49,7 +50,7 @@ import subprocess
 hooks = subprocess.run(["git", "-C", "/repo", "log", "--format=%h %s"], capture_output=True, text=True).stdout.splitlines()
 hook_commits = [l.split()[0] for l in hooks if "verif-hooks" in l]
 m = {"version": 1,
-     "setup_cmd": "cd /verif/harness && (test -f Cargo.lock || cp /repo/Cargo.lock .) && CARGO_NET_OFFLINE=true cargo build --offline --quiet",
+     "setup_cmd": "cd /verif/harness && (test -f Cargo.lock || cp /repo/Cargo.lock .) && CARGO_NET_OFFLINE=true cargo build --offline --quiet && cd /repo && CARGO_NET_OFFLINE=true cargo build --offline --quiet -p abasic-cli -p abasic-lsp --target-dir /verif/harness/target/repo",
      "hooks": {"guard": "verif-hooks",
                "enable": "cargo feature `verif-hooks` of abasic-core (the harness depends on abasic-core with features=[\"verif-hooks\"])",
                "baseline_off_cmd": "cd /repo && RUST_BACKTRACE=0 cargo test --workspace --no-fail-fast --offline",
